@@ -270,11 +270,82 @@ def _server_deletion(ctx, rule='C10.3'):
            'delete_server removes the placement records of the server on '
            'every path', path=K.describe(skip) if skip else None,
            construct='server deletion drops its records')
+    # the master is told only when the deletion is complete: it decides what
+    # to do with the server by reading its record when it serves the event
+    # (a record still there means "nothing changed")
+    def drops_any(node):
+        return any(K.callee_text(c).endswith('ensure_deleted') or
+                   K.is_meth(c, 'delete', 'ensure_deleted')
+                   for c in C.node_calls(node))
+    events = [n for n, c in K.nodes_calling(
+        graph, lambda c: K.callee_text(c).endswith('create_event'))]
+    late = [n for n in graph.nodes if drops_any(n) and any(
+        n in C.reach_after(e, edge_ok=C.no_exc) for e in events)]
+    ctx.ob(rule, func, late[0] if late else (events[0] if events else None),
+           bool(events) and not late,
+           'the servers event is created after every deletion of '
+           'delete_server', construct='event after the deletions')
+
+
+def _tolerant_reads(ctx, rule='C10.3'):
+    """The restart works on a store that other parties keep changing (a node
+    loses its presence, an admin deletes a server): every read of the store
+    on the restore path is prepared for the node to be gone - it sits in a
+    try block that handles ObjectNotFoundError.  A read that is not (a
+    look-before-you-read test does not help: the node can vanish in
+    between) lets the error escape to a handler that drops the whole server
+    from the model while its records stay, or ends the start-up."""
+    loader = ctx.index.get_class(K.LOADER, 'Loader')
+    seen = 0
+    from . import c11
+    root = loader.methods.get('restore_placement')
+    ctx.require(root is not None, 'Loader.restore_placement', rule=rule)
+    # restore_placement and the private readers it calls on self (not the
+    # placement routines and not remove_app / the publication helpers)
+    closure = c11._closure(ctx.index, loader, root)
+    for name, func in sorted(closure.items()):
+        if func is not root and not name.split('.')[-1].startswith(
+                ('get_', '_get', '_read', '_presence')):
+            continue
+        name = name.split('.')[-1]
+        parents = {}
+        # the view: private helpers are spliced in, with their try blocks
+        for node in K.walk_no_nested(func.node):
+            for child in ast.iter_child_nodes(node):
+                parents[child] = node
+            for child in getattr(node, '_inline_body', None) or ():
+                parents[child] = node
+
+        def guarded(call):
+            cur = call
+            while cur in parents:
+                par = parents[cur]
+                if isinstance(par, ast.Try) and any(
+                        cur is st for st in par.body) and any(
+                            h.type is None or
+                            'ObjectNotFoundError' in N.txt(h.type)
+                            for h in par.handlers):
+                    return True
+                cur = par
+            return False
+        for call in K.walk_no_nested(func.node):
+            if isinstance(call, ast.Call) and K.is_meth(
+                    call, 'get', 'get_with_metadata', 'list') and \
+                    (K.recv_text(call) or '').endswith('backend'):
+                seen += 1
+                ctx.ob(rule, func, call, guarded(call),
+                       'the read %s is prepared for the node to be gone '
+                       '(ObjectNotFoundError handled around it)'
+                       % N.txt(call)[:60],
+                       construct='tolerant read in %s' % name)
+    ctx.require(seen >= 3, 'store reads on the restore path (found %d)'
+                % seen, rule=rule)
 
 
 def check(ctx):
     run(ctx)
     _server_deletion(ctx)
+    _tolerant_reads(ctx)
     # shared with C09.4 / C11.4: what the new master needs to complete its
     # start-up on the stored state - a replaced server gets its recorded
     # placement back, and a recorded identity (0 included) is taken back
